@@ -6,6 +6,11 @@ ids = [p['id'] for p in props]
 
 # id -> (category, technique, text, note, design_ref)
 CHECKS = {
+ 'C09': ('exploration',
+         'property-based round-trip through an independent XML parser plus a grammar validity predicate',
+         'Accepted documents decorated from the whole constant-binding catalogue, with every string slot (text, tool tips, titles, string lists, model items, tab attributes, icon theme attribute, font family, pixmap paths, key sequences) filled from the XML 1.0 Char production and with unusual type names, are translated; the .ui must parse with a strict XML reader written in the harness, stay inside a content-model table of the ui4 subset uic reads, and every decoded string/value must equal the model value exactly. A round-trip over generated strings is exactly what decides "for all string contents".',
+         'Trusts the harness XML reader and the content-model table (DESIGN appendix C). Characters XML cannot carry are outside the preservation clause; a probe shows they are written raw (known finding).',
+         'DESIGN.md section 3 C09'),
  'C10': ('exploration',
          'property-based testing with an adversarial name generator; validity predicate over both artifacts',
          'Object trees whose ids are drawn from the space of names a generator could hand out for the classes present (and classes named like generated names), with buddy/actions references and dynamic bindings that reach objects by id or as `this`; the decoded .ui and the scanned header are checked for pairwise distinct names, id=name, generated names avoiding ids, every addaction/cstring/ui_-> reference denoting exactly the intended declared object, unique function names, and rejection of duplicated ids. Generated adversarial inputs are what reaches the collision cases a snapshot suite never samples.',
